@@ -1793,9 +1793,16 @@ class Engine:
         sm = difflib.SequenceMatcher(a=base, b=cur, autojunk=False)
         for d in nodes:
             self.loop_ids[id(d)] = -1            # no specification
-        for blk in sm.get_matching_blocks():
-            for off in range(blk.size):
-                self.loop_ids[id(nodes[blk.b + off])] = blk.a + off
+        reduced = lambda fp: fp.split(':', 1)[0] + ('@' + fp.split('@', 1)[1] if '@' in fp else '')
+        for tag, i1, i2, j1, j2 in sm.get_opcodes():
+            if tag == 'equal':
+                for off in range(i2 - i1):
+                    self.loop_ids[id(nodes[j1 + off])] = i1 + off
+            elif tag == 'replace' and i2 - i1 == j2 - j1 and all(reduced(base[i1 + o]) == reduced(cur[j1 + o]) for o in range(i2 - i1)):
+                # same number of loops of the same statement kinds in the same `case` context, only names in the headers
+                # differ (renamed variable, helper call in the bound): the same loops
+                for off in range(i2 - i1):
+                    self.loop_ids[id(nodes[j1 + off])] = i1 + off
 
     # function execution ------------------------------------------------------------------------------
     def run(self, qname: str, contract, label: str = '') -> list[VC]:
